@@ -1257,6 +1257,9 @@ func stream(vm *VM, streamOrAlias Term, env *Env) (*Stream, error) {
 		}
 		return v, nil
 	case *Stream:
+		if s.closed {
+			return nil, existenceError(objectTypeStream, streamOrAlias, env)
+		}
 		return s, nil
 	default:
 		return nil, domainError(validDomainStreamOrAlias, streamOrAlias, env)
